@@ -28,6 +28,8 @@ def run(ctx, chk):
     chk.rule('C02.1', 'D', 'per encoding and branch outcome: cycles added by emitted code = cycles added by the '
              'interpreter (decoder clocks/4 + taken extras)', floor=516)
     chk.rule('C02.2', 'D', 'decoder clock counts are multiples of 4; emitted increments fit the sign-extended imm8', floor=500)
+    chk.rule('C02.4', 'D', 'value level: abstract execution of the emitted x86-64 bytes changes R15W by exactly the machine '
+             'cycles the interpreter path charges, for every encoding, operand value and branch outcome', floor=500)
     chk.rule('C02.3', 'D', 'per-instruction constants only: who may write Registers.cycles', floor=5)
     facts = ctx.facts('jit')
     prog = ctx.program('jit')
@@ -109,6 +111,9 @@ def run(ctx, chk):
                          efile, None)
         if fits:
             chk.ok('C02.2', name, nontrivial=False)
+    from .. import jitsem
+    jitsem.apply_rule(ctx, chk, 'C02.4', lambda c: c == 'cycles')
+    jitsem.suppress_subsumed(ctx, chk, ('C02.1',))
     # rule 3: writers of Registers.cycles
     allowed = {'interpreter::run_next_op', 'interpreter::interp_jump', 'interpreter::interp_jump_relative',
                'interpreter::interp_call', 'interpreter::interp_return', 'emulator::Core::handle_interrupt',
